@@ -75,7 +75,7 @@ def main():
             if not sns:
                 return {"reproduced": False, "detail": "no Garden snippet for this step"}
 
-            def native_part():
+            def native_part(job=job):
                 last = None
                 for sn in sns:
                     src = (sn[0] + "\n" if sn[0] else "") + sn[1]
@@ -84,6 +84,21 @@ def main():
                     last = {"reproduced": crashed, "artefact": src, "detail": f"exit={code} stderr={err[:200]!r}"}
                     if crashed:
                         return last
+                if job[0] == "expr" and job[1] in ("Assign", "AssignUpdate"):
+                    # a step that finds its variable unbound only after it started: the binding can disappear between the
+                    # failing sub-expression and the resumed step (`:forget_local` is in the session's command vocabulary)
+                    op = "=" if job[1] == "Assign" else "+="
+                    for fin in (":skip", ":replace 2", ":resume"):
+                        hist = ["let uv = 1", f"uv {op} 10 / 0", ":forget_local uv", fin, "1 + 1"]
+                        s_ = native.JsonSession()
+                        try:
+                            outs = [native.response_summary(s_.request(h, timeout=6)[0])[:2] for h in hist]
+                            dead = (not s_.alive()) or any(o[0] == "none" for o in outs)
+                        finally:
+                            s_.close()
+                        if dead:
+                            return {"reproduced": True, "artefact": {"requests": hist}, "detail": f"responses={outs}"}
+                        last = {"reproduced": False, "artefact": {"requests": hist}, "detail": f"responses={outs}"}
                 return last
             return native_part
         C.prove_deferred(f"{label}:no-panic:{p.kind}@{p.line}", r.pc, False, site=site,
